@@ -198,7 +198,7 @@ CHECKS["C11"] = dict(
     stages=[
         dict(name="real-sleep", env={}, quick=dict(shards=8, checks=500, timeout=400), thorough=dict(shards=8, checks=10000, timeout=3400, shrinktime="120s")),
         dict(name="no-sleep", vclock=True, class_prefix="nosleep:", env={"VERIF_NOSLEEP": "1"},
-             quick=dict(shards=8, checks=2500, timeout=400), thorough=dict(shards=8, checks=400000, timeout=3400, shrinktime="120s")),
+             quick=dict(shards=8, checks=2500, timeout=400), thorough=dict(shards=8, checks=150000, timeout=3400, shrinktime="120s")),
     ],
     rule="cooperative-scheduler cases: channel kind (sync, queued blocking/non-blocking, queue 1-8) x who closed (user Close with nil / "
          "sentinel / wrapped / io.EOF / net.Error argument; the read loop after parent-context cancellation, i.e. Close(nil); the tail "
@@ -220,7 +220,7 @@ CHECKS["C18"] = dict(
     stages=[
         dict(name="real-sleep", env={}, quick=dict(shards=8, checks=400, timeout=400), thorough=dict(shards=8, checks=8000, timeout=3400, shrinktime="120s")),
         dict(name="no-sleep", vclock=True, class_prefix="nosleep:", env={"VERIF_NOSLEEP": "1"},
-             quick=dict(shards=8, checks=2000, timeout=400), thorough=dict(shards=8, checks=100000, timeout=3400, shrinktime="120s")),
+             quick=dict(shards=8, checks=2000, timeout=400), thorough=dict(shards=8, checks=30000, timeout=3400, shrinktime="120s")),
     ],
     rule="cooperative-scheduler cases on queued channels (queue 1-4, blocking and non-blocking mode): 1-4 writer tasks x 1-5 calls over the "
          "five entry points with background / already-cancelled / live caller contexts (a canceller task cancels the live ones at a "
@@ -243,7 +243,7 @@ CHECKS["C05"] = dict(
     stages=[
         dict(name="real-sleep", env={}, quick=dict(shards=8, checks=500, timeout=400), thorough=dict(shards=8, checks=60000, timeout=3400, shrinktime="120s")),
         dict(name="no-sleep", vclock=True, class_prefix="nosleep:", env={"VERIF_NOSLEEP": "1"},
-             quick=dict(shards=8, checks=3000, timeout=400), thorough=dict(shards=8, checks=300000, timeout=3400, shrinktime="120s")),
+             quick=dict(shards=8, checks=3000, timeout=400), thorough=dict(shards=8, checks=1000000, timeout=3400, shrinktime="120s")),
     ],
     rule="cooperative-scheduler cases with the pipeline [real ChannelHolder, lifecycle probe, recorders, transport reader]: 0-4 closer tasks "
          "with distinct error values (one may be nil), Close from inside HandleActive / the k-th HandleRead / HandleEvent, parent-context "
@@ -393,7 +393,7 @@ CHECKS["C20"] = dict(
     stages=[
         dict(name="real-time", env={}, quick=dict(shards=4, checks=2, timeout=300), thorough=dict(shards=6, checks=80, timeout=3400)),
         dict(name="virtual-time", vclock=True, class_prefix="v:", env={"VERIF_C20_MODE": "virtual"},
-             quick=dict(shards=6, checks=30000, timeout=300), thorough=dict(shards=10, checks=3000000, timeout=3400)),
+             quick=dict(shards=6, checks=30000, timeout=300), thorough=dict(shards=10, checks=8000000, timeout=3400)),
     ],
     replay_repeat=1,
     rule="two stages. (1) REAL TIME: one case = 200 independent timelines run concurrently, each on its own "
